@@ -157,7 +157,7 @@ pub fn run_case_with(gd: &GenDict, mk: &dyn Fn() -> Outcome<vibrato::Dictionary>
         Outcome::Err => return CaseOut { term: fin(head(1, &gd.coq_matrix(), 0, "[]"), &extra), human, built: 1, sents: vec![] },
         Outcome::Panic => return CaseOut { term: fin(head(2, &gd.coq_matrix(), 0, "[]"), &extra), human, built: 2, sents: vec![] },
     };
-    let conn = coq_conn(&dict);
+    let conn = if gd.bigram.is_some() && gd.declared_conn { gd.coq_matrix() } else { coq_conn(&dict) };
     // option setters are applied as a sequence: sometimes the opposite / another value is set
     // first and then overridden (the last call must win)
     let mut tokenizer = vibrato::Tokenizer::new(dict);
@@ -433,6 +433,14 @@ pub fn run(prop: &str, seed: u64, n: usize, outdir: &str, _corpus: Option<&str>)
         if prop != "C10" && gd.nright >= 2 && gd.nleft >= 2 && gd.nright <= 6 && rng.chance(1, 4) {
             let bg = crate::c07::gen_bigram_sized(&mut rng, false, false, gd.nright - 1, gd.nleft - 1);
             gd.bigram = Some((bg.right_file(), bg.left_file(), bg.cost_file(), rng.chance(1, 2)));
+            // the model is given the costs the files DECLARE (the defining sums, computed from the generator's own
+            // description), not what the compiled connector answers: a connector that misreads its files then shows
+            // up as a path that is not optimal for the declared dictionary
+            let spec: Vec<Vec<i64>> = (0..gd.nright).map(|r| (0..gd.nleft).map(|l| bg.spec(r, l)).collect()).collect();
+            if spec.iter().flatten().all(|c| *c >= i16::MIN as i64 && *c <= i16::MAX as i64) {
+                gd.matrix = spec.iter().map(|row| row.iter().map(|c| *c as i16).collect()).collect();
+                gd.declared_conn = true;
+            }
         }
         let gd = gd;
         let ignore_space = if prop == "C12" { true } else { rng.chance(1, 3) };
@@ -446,6 +454,25 @@ pub fn run(prop: &str, seed: u64, n: usize, outdir: &str, _corpus: Option<&str>)
             sentences.truncate(1);
             for _ in 0..3 {
                 sentences.push(respace(&mut rng, &base));
+            }
+        }
+        // related sentences: a sentence that shares a prefix with its predecessor on the same worker (kept prefix +
+        // new tail, an extension, a truncation, the last character changed) -- what survives in a reused worker
+        // between two sentences is most visible when the texts overlap
+        if prop != "C12" && sentences.len() > 1 && rng.chance(if prop == "C04" { 2 } else { 1 }, 3) {
+            for i in 1..sentences.len() {
+                if !rng.chance(2, 3) { continue; }
+                let prev: Vec<char> = sentences[i - 1].chars().collect();
+                if prev.is_empty() { continue; }
+                let keep = 1 + rng.below(prev.len() as u64) as usize;
+                let mut t: String = prev[..keep].iter().collect();
+                match rng.below(5) {
+                    0 => {}                                                              // truncation
+                    1 => { t = prev.iter().collect(); t.push_str(&gen_sentence(&mut rng, &gd)); }   // extension
+                    2 => { t = prev[..prev.len() - 1].iter().collect(); t.push(*rng.pick(ALPHABET)); } // last character changed
+                    _ => { let tail: String = gen_sentence(&mut rng, &gd).chars().take(6).collect(); t.push_str(&tail); } // shared prefix, new tail
+                }
+                sentences[i] = t;
             }
         }
         if (prop == "C04" || prop == "C13") && rng.chance(1, 2) && sentences.len() > 1 {
@@ -565,6 +592,42 @@ pub fn run(prop: &str, seed: u64, n: usize, outdir: &str, _corpus: Option<&str>)
                 let mapped = guarded(move || d.map_connection_ids_from_iter(l2, r2));
                 let code = match &mapped { Outcome::Ok(_) => 0, Outcome::Err => 1, Outcome::Panic => 2 };
                 let mut souts: Vec<(u8, bool)> = vec![];
+                // a second sequence: after an accepted mapping, a further (valid) mapping, THEN a user lexicon whose ids
+                // are given in the original numbering, then sentences made of the user words as well
+                let mut second: Option<(Vec<u16>, Vec<u16>, u8, Vec<(u8, bool)>)> = None;
+                if matches!(mapped, Outcome::Ok(_)) {
+                    if let Outcome::Ok(d0) = gd.build() {
+                        let perm = |rng: &mut Rng, n: usize| -> Vec<u16> { let mut p: Vec<u16> = (1..n as u16).collect(); rng.shuffle(&mut p); p };
+                        let (l1, r1) = (lm.clone(), rm.clone());
+                        let (lm2, rm2) = (perm(&mut rng, gd.nleft), perm(&mut rng, gd.nright));
+                        let urows: Vec<Row> = (0..3).map(|k| Row { surface: (0..1 + rng.below(3)).map(|_| *rng.pick(&ALPHABET[..8])).collect(), lid: rng.below(gd.nleft as u64) as u16, rid: rng.below(gd.nright as u64) as u16, cost: -50 * k as i16, feature: format!("user{}", k) }).collect();
+                        let ucsv = GenDict::rows_csv(&urows);
+                        let (l2, r2) = (lm2.clone(), rm2.clone());
+                        let step = guarded(move || d0.map_connection_ids_from_iter(l1, r1)?.map_connection_ids_from_iter(l2, r2));
+                        let code2 = match &step { Outcome::Ok(_) => 0, Outcome::Err => 1, Outcome::Panic => 2 };
+                        let mut souts2: Vec<(u8, bool)> = vec![];
+                        if let Outcome::Ok(d1) = step {
+                            let uc = ucsv.clone();
+                            let loaded = guarded(move || d1.reset_user_lexicon_from_reader(Some(uc.as_bytes())));
+                            match loaded {
+                                Outcome::Ok(d2) => {
+                                    let unk_cats: std::collections::BTreeSet<u32> = d2.verif_unk_entries().iter().map(|e| e.0 as u32).collect();
+                                    let mut sents2: Vec<String> = sentences.clone();
+                                    for r in &urows { sents2.push(r.surface.clone()); sents2.push(format!("{}{}", r.surface, urows[0].surface)); }
+                                    let uncovered: Vec<bool> = sents2.iter().map(|s| s.chars().any(|ch| !unk_cats.contains(&d2.verif_char_info(ch).1))).collect();
+                                    let t = vibrato::Tokenizer::new(d2);
+                                    for (s, unc) in sents2.iter().zip(uncovered) {
+                                        let r = std::panic::catch_unwind(std::panic::AssertUnwindSafe(|| { let mut w = t.new_worker(); w.reset_sentence(s); w.tokenize(); w.num_tokens() }));
+                                        souts2.push((if r.is_ok() { 0 } else { 2 }, unc));
+                                    }
+                                }
+                                Outcome::Err => {}
+                                Outcome::Panic => souts2.push((2, false)),
+                            }
+                        }
+                        second = Some((lm2, rm2, code2, souts2));
+                    }
+                }
                 if let Outcome::Ok(d) = mapped {
                     let unk_cats: std::collections::BTreeSet<u32> = d.verif_unk_entries().iter().map(|e| e.0 as u32).collect();
                     let uncovered: Vec<bool> = sentences.iter().map(|s| s.chars().any(|ch| !unk_cats.contains(&d.verif_char_info(ch).1))).collect();
@@ -573,6 +636,11 @@ pub fn run(prop: &str, seed: u64, n: usize, outdir: &str, _corpus: Option<&str>)
                         let r = std::panic::catch_unwind(std::panic::AssertUnwindSafe(|| { let mut w = t.new_worker(); w.reset_sentence(s); w.tokenize(); w.num_tokens() }));
                         souts.push((if r.is_ok() { 0 } else { 2 }, unc));
                     }
+                }
+                if let Some((lm2, rm2, code2, souts2)) = second {
+                    let mterm2 = format!("(C10Map {} {} {} {} {} {} {})", sub, gd.nleft, gd.nright, clist(&lm2, |x| cn(x)), clist(&rm2, |x| cn(x)), code2, clist(&souts2, |(o, u)| format!("({}, {})", o, cbool(*u))));
+                    *dist.entry(format!("second_mapping_then_user_lexicon_outcome_{}", code2)).or_default() += 1;
+                    sh.push_h(format!("seed:{}:map2", sub), mterm2, format!("first lmap={:?} rmap={:?}, then lmap={:?} rmap={:?}, then a user lexicon of 3 rows (ids in the original numbering) drawn from the same case seed, on {}", lm, rm, lm2, rm2, out.human));
                 }
                 let mterm = format!("(C10Map {} {} {} {} {} {} {})", sub, gd.nleft, gd.nright, clist(&lm, |x| cn(x)), clist(&rm, |x| cn(x)), code, clist(&souts, |(o, u)| format!("({}, {})", o, cbool(*u))));
                 *dist.entry(format!("mapping_outcome_{}", code)).or_default() += 1;
